@@ -714,5 +714,37 @@ m("c10-pair-lookup-by-metadata", "C10", "x/erc20/keeper/token_pairs.go",
   "\treturn k.GetDenomMap(ctx, token)\n}", "\tif md, ok := k.bankKeeper.GetDenomMetaData(ctx, token); ok && md.Base != token {\n\t\treturn k.GetDenomMap(ctx, md.Base)\n\t}\n\treturn k.GetDenomMap(ctx, token)\n}",
   "keyed-read-only", "an unregistered denomination resolves to the pair of its metadata's base")
 
+m("c11-redeem-applies-upcoming-only", "C11", "x/liquidvesting/keeper/msg_server.go",
+  "\t\t\tdiffPeriods,\n\t\t\tsdkvesting.Periods{{Length: 0, Amount: sdk.NewCoins(originalDenomCoin)}},", "\t\t\tupcomingPeriods,\n\t\t\tsdkvesting.Periods{{Length: 0, Amount: sdk.NewCoins(originalDenomCoin)}},",
+  "schedule-reapplied", "the elapsed periods' lengths are dropped from the re-applied schedule: every later release moves earlier")
+m("c13-zero-mint-skips-clock", "C13", "x/coinomics/keeper/inflation.go",
+  "\tif err := k.MintCoins(ctx, totalMintOnBlockCoin); err != nil {", "\tif totalMintOnBlockCoin.IsZero() {\n\t\treturn nil\n\t}\n\tif err := k.MintCoins(ctx, totalMintOnBlockCoin); err != nil {",
+  "clock-advances-on-every-success", "a block whose mint rounds to zero does not advance the mint clock")
+m("c14-credit-skips-large-coins", "C14", "x/bank/keeper/keeper.go",
+  "\t\tcoins := sdk.NewDecCoinsFromCoins(amounts...)\n", "\t\tcoins := make(sdk.DecCoins, 0, len(amounts))\n\t\tfor _, a := range amounts {\n\t\t\tif !a.Amount.IsInt64() {\n\t\t\t\tcontinue\n\t\t\t}\n\t\t\tcoins = append(coins, sdk.NewDecCoinFromCoin(a))\n\t\t}\n",
+  "every-coin-credited", "coins above int64 are sent to the distribution account but not credited to the pool")
+m("c15-message-not-on-cache-ctx", "C15", "x/evm/keeper/state_transition.go",
+  "res, err := k.ApplyMessageWithConfig(tmpCtx, msg, nil, true, cfg, txConfig)", "res, err := k.ApplyMessageWithConfig(ctx, msg, nil, true, cfg, txConfig)",
+  "C05.R2", "a failed Ethereum transaction is not rolled back: half-done staking/distribution operations are committed")
+m("c16-delegate-not-validated", "C16", "precompiles/staking/types.go",
+  "\t\tAmount: sdk.Coin{\n\t\t\tDenom:  denom,\n\t\t\tAmount: math.NewIntFromBigInt(amount),\n\t\t},\n\t}\n\n\tif err = msg.ValidateBasic(); err != nil {\n\t\treturn nil, common.Address{}, err\n\t}\n",
+  "\t\tAmount: sdk.Coin{\n\t\t\tDenom:  denom,\n\t\t\tAmount: math.NewIntFromBigInt(amount),\n\t\t},\n\t}\n\n\tif amount.Sign() < 0 {\n\t\treturn nil, common.Address{}, fmt.Errorf(\"negative amount\")\n\t}\n",
+  "validated-like-native", "zero-amount delegate/undelegate accepted by the precompile only", count=2)
+m("c16-unbonding-query-truncated", "C16", "precompiles/staking/query.go",
+  "\tout := new(UnbondingDelegationOutput).FromResponse(res)\n", "\tif len(res.Unbond.Entries) > 7 {\n\t\tres.Unbond.Entries = res.Unbond.Entries[:7]\n\t}\n\tout := new(UnbondingDelegationOutput).FromResponse(res)\n",
+  "native-answer-unedited", "the precompile reports fewer unbonding entries than the native query")
+m("c17-target-signed-guard", "C17", "x/feemarket/keeper/eip1559.go",
+  "\tif !parentGasTargetBig.IsUint64() {\n\t\treturn nil\n\t}\n\n\tparentGasTarget := parentGasTargetBig.Uint64()\n", "\tif !parentGasTargetBig.IsInt64() {\n\t\treturn nil\n\t}\n\n\tparentGasTarget := uint64(parentGasTargetBig.Int64())\n",
+  "gas-is-unsigned", "unlimited block gas with elasticity 1 freezes the base fee")
+m("c18-buildtx-literal-fee", "C18", "x/evm/types/msg.go",
+  "\tfees := make(sdk.Coins, 0)\n\tfeeAmt := sdkmath.NewIntFromBigInt(txData.Fee())\n\tif feeAmt.Sign() > 0 {\n\t\tfees = append(fees, sdk.NewCoin(evmDenom, feeAmt))\n\t}\n", "\tfees := sdk.Coins{sdk.NewCoin(evmDenom, sdkmath.NewIntFromBigInt(txData.Fee()))}\n",
+  "envelope-fee-is-canonical", "a zero-fee transaction gets the envelope fee [0denom]")
+m("c18-bound-exclusive", "C18", "types/int.go",
+  "i.BitLen() <= maxBitLen", "i.BitLen() < maxBitLen",
+  "bound-admits-max-uint256", "amounts of exactly 256 bits are rejected")
+m("c20-beginblock-once-per-process", "C20", "x/evm/keeper/abci.go",
+  "\tk.WithChainID(ctx)\n", "\tif k.eip155ChainID != nil {\n\t\treturn\n\t}\n\tk.WithChainID(ctx)\n\tparams := k.GetParams(ctx)\n\tif len(params.ActivePrecompiles) > 64 {\n\t\tparams.ActivePrecompiles = params.ActivePrecompiles[:64]\n\t\t_ = k.SetParams(ctx, params)\n\t}\n",
+  "branch-on-late-bound-field", "a clean-up that runs only in the first block a process sees")
+
 json.dump(M, open('/verif/mutants.json', 'w'), indent=1)
 print(len(M), "mutants written")
